@@ -658,11 +658,15 @@ def _choice(I, a):
     nm = _name(I, a[0]); n = a[1]
     if I.inputs is not None: v = I.inputs.small(nm, n)
     else:
-        v = n - 1
-        for k in range(n - 1):
-            # n-way fork recorded as decisions on a fresh boolean
-            b = z3.Bool('%s==%d' % (nm, k))
-            if I.decide(b): v = k; break
+        # n-way fork recorded as a binary search over fresh booleans: log2(n) decisions, so that the explorer learns
+        # about all alternatives after one path instead of after a chain of n paths
+        lo, hi = 0, n
+        while hi - lo > 1:
+            mid = (lo + hi) // 2
+            if I.decide(z3.Bool('%s<%d#%d' % (nm, mid, I.ext.setdefault('choice_n', 0)))): hi = mid
+            else: lo = mid
+        I.ext['choice_n'] = I.ext.get('choice_n', 0) + 1
+        v = lo
     I.choices[nm] = v
     return v
 @ext('verif_assume')
